@@ -209,6 +209,8 @@ inline Plan Gen(uint64_t seed)
    g.s.resize((size_t) senders);
    GFaults f;
    f.any     = !cfg.oneIn(4);                 // one run in four has a perfect transport (and no would-blocks)
+   Rng cr(seed, "crowd"); const bool crowd = (!g.mini)&&(g.mtu >= 64)&&(cr.oneIn(20));
+   if ((crowd)&&(!cr.oneIn(3))) f.any = false;   // (two crowd runs in three are otherwise perfect, so that a lost Message is owed)
    const bool wbOnly = f.any && cfg.oneIn(8);  // a perfect transport, but the senders' writes block now and then
    f.drop    = f.any && !wbOnly && !cfg.oneIn(3);   // each kind is off in a third of the faulty runs
    f.dup     = f.any && !wbOnly && !cfg.oneIn(3);
@@ -312,6 +314,23 @@ inline Plan Gen(uint64_t seed)
    };
    auto In = [&]() {p.push_back(wl.oneIn(6) ? "in 1" : "in");};
 
+   // crowd prelude: one sender's long Message arrives fragment by fragment while hundreds of other sources are heard in between -- never more than 120 between two
+   // of its fragments, so the receiver, which remembers the 256 most recently heard sources, must not forget it
+   if (crowd)
+   {
+      const int s = (int) cr.below((uint32_t) senders);
+      uint32_t sz = cap*(4+cr.below(3)) + cr.below(cap); if (sz > maxFlat) sz = maxFlat;
+      if (cr.oneIn(3)) EmitMsg((int) cr.below((uint32_t) senders), kFlatBase + cr.below(20), false);   // (someone was heard before)
+      EmitMsg(s, RoundFlat(sz), false);
+      for (int i=0; i<senders; i++) Flush(i);
+      while(!g.fl.empty())
+      {
+         p.push_back("deliver 0"); g.fl.erase(g.fl.begin());
+         if (!cr.oneIn(4)) p.push_back("in");
+         p.push_back("crowd " + U(40 + cr.below(80)));
+      }
+      p.push_back("in");
+   }
    const int rounds = 1 + (int) wl.below(6);
    for (int round=0; (round<rounds)||(msgs == 0); round++)
    {
@@ -363,6 +382,7 @@ inline Plan Gen(uint64_t seed)
          else EmitOut(s, ((g.mini)&&(zl > 0)) ? 1 : (1 + wl.below(3*g.mtu)));   // (with compression the model cannot know how many bytes a packet has)
          if ((f.restart)&&(fl.oneIn(5))) {p.push_back("restart " + I(s)); g.Restart(s);}
       }
+      if ((crowd)&&(cr.oneIn(3))) p.push_back("crowd " + U(1 + cr.below(100)));
       // network and receiver
       if (!wl.oneIn(5)) NetPhase();
       if (!wl.oneIn(5)) In();
@@ -427,9 +447,12 @@ struct Harness : public AbstractGatewayMessageReceiver
    std::string ioViolCls, ioViolDetail;    // a violation noticed inside a DataIO callback; raised once the gateway call has returned
    uint64_t drops, dups, reorders, wouldBlocks, restarts, packets, delivered, msgsSent;
    int lastDeliveredSrc;
+   // "crowd": many further sources, each sending one small Message over a perfect path (the receiver keeps per-source reassembly state in a table of limited size)
+   AbstractMessageIOGatewayRef CG; std::vector<std::string> crowdCapture, crowdFlat; std::vector<int> crowdGot; uint32_t crowdSince[kMaxSenders]; uint64_t crowdPkts;
 
-   Harness(const Plan & plan, RunResult & r) : cfg(plan), res(r), st(r.stats), drops(0), dups(0), reorders(0), wouldBlocks(0), restarts(0), packets(0), delivered(0), msgsSent(0), lastDeliveredSrc(-1)
+   Harness(const Plan & plan, RunResult & r) : cfg(plan), res(r), st(r.stats), drops(0), dups(0), reorders(0), wouldBlocks(0), restarts(0), packets(0), delivered(0), msgsSent(0), lastDeliveredSrc(-1), crowdPkts(0)
    {
+      for (int i=0; i<kMaxSenders; i++) crowdSince[i] = 0;
       for (int i=0; i<NUM_K; i++) k[i] = 0;
       mini    = cfg.i("mini", 0) != 0;
       slave   = cfg.i("slave", 0) != 0;
@@ -452,19 +475,19 @@ struct Harness : public AbstractGatewayMessageReceiver
       }
       R = MakeGateway(-1);
    }
-   virtual ~Harness() {for (int s=0; s<kMaxSenders; s++) S[s].gw.Reset(); R.Reset();}
+   virtual ~Harness() {for (int s=0; s<kMaxSenders; s++) S[s].gw.Reset(); R.Reset(); CG.Reset();}
 
-   AbstractMessageIOGatewayRef MakeGateway(int s)   // s < 0: the receiver
+   AbstractMessageIOGatewayRef MakeGateway(int s)   // s == -1: the receiver; s == -2: the gateway all crowd sources' packets are made with
    {
       AbstractMessageIOGatewayRef sl;
       if (slave)
       {
          MessageIOGateway * g = new MessageIOGateway;
-         if ((s < 0)&&(!tag)) g->SetPacketRemoteLocationTaggingEnabled(false);
+         if ((s == -1)&&(!tag)) g->SetPacketRemoteLocationTaggingEnabled(false);
          sl.SetRef(g);
       }
       AbstractMessageIOGatewayRef ret;
-      const uint32 sexID = (s < 0) ? rxsex : S[s].sex;
+      const uint32 sexID = (s == -1) ? rxsex : ((s >= 0) ? S[s].sex : 0);
       if (mini) {MiniPacketTunnelIOGateway * g = new MiniPacketTunnelIOGateway(sl, mtu); g->SetSourceExclusionID(sexID); if (s >= 0) g->SetZLibCompressionLevel((uint8) zl); ret.SetRef(g);}
            else {PacketTunnelIOGateway * g = new PacketTunnelIOGateway(sl, mtu); g->SetSourceExclusionID(sexID); ret.SetRef(g);}
       ret()->SetDataIO(DataIORef(new SimPacketDataIO(this, s, mtu)));
@@ -493,11 +516,14 @@ struct Harness : public AbstractGatewayMessageReceiver
    }
    std::string ConfigSummary() const {return "mini=" + I(mini) + " zl=" + I(zl) + " mtu=" + U(mtu) + " slave=" + I(slave) + " senders=" + I(senders) + " ts=" + U(ts);}
    int SrcOf(const IPAddressAndPort & a) const {for (int s=0; s<senders; s++) if (S[s].addr == a) return s; return -1;}
+   static IPAddressAndPort CrowdAddr(int idx) {return IPAddressAndPort(IPAddress((((uint32)172)<<24) | (uint32)(idx+1)), (uint16) 7000);}
+   int CrowdIdxOf(const IPAddressAndPort & a) const {for (size_t i=0; i<crowdFlat.size(); i++) if (CrowdAddr((int) i) == a) return (int) i; return -1;}
    bool AnyRestart() const {return restarts > 0;}
 
    // ---- network side (called from inside gateway calls: must not throw)
    io_status_t OnWrite(int src, const void * b, uint32 n)
    {
+      if (src == -2) {crowdCapture.push_back(std::string((const char *) b, n)); return io_status_t((int32) n);}
       if ((src < 0)||(src >= senders)) return io_status_t(B_BAD_OBJECT);   // the receiver never writes
       SenderState & ss = S[src];
       if (ss.wblock > 0) {ss.wblock--; wouldBlocks++; th.u(0xB10C0000u + (uint64_t) src); return io_status_t();}
@@ -531,7 +557,13 @@ struct Harness : public AbstractGatewayMessageReceiver
       const uint32 nb = (uint32) std::min<size_t>(n, p.b.size());
       if (nb < p.b.size()) st.inc("p.rx_truncated");
       memcpy(b, p.b.data(), nb);
-      from = S[p.src].addr;
+      if (p.src >= 0) {from = S[p.src].addr; crowdSince[p.src] = 0;}
+      else
+      {
+         from = CrowdAddr(-(p.src+2));
+         // The receiver may forget a source once more than 256 others have been heard since: long before that the Messages this source has not completed yet stop being owed
+         for (int s=0; s<senders; s++) if (++crowdSince[s] == 240) {st.inc("p.crowd_may_have_evicted_sender"); for (size_t i=S[s].gotSeq.size(); i<S[s].sentSeq.size(); i++) S[s].sentSeq[i].must = false;}
+      }
       rx.pop_front();
       return io_status_t((int32) nb);
    }
@@ -691,6 +723,26 @@ struct Harness : public AbstractGatewayMessageReceiver
          if (r.GetByteCount() <= 0) break;
       }
    }
+   void OpCrowd(uint32_t n)
+   {
+      if (mini) return;   // (the mini tunnel keeps no per-source state)
+      n = std::min<uint32_t>(n, 200);
+      if (CG() == NULL) CG = MakeGateway(-2);
+      for (uint32_t i=0; (i<n)&&(crowdFlat.size() < 900); i++)
+      {
+         const int idx = (int) crowdFlat.size();
+         MessageRef m = GetMessageFromPool(0x63727764); if (m() == NULL) Violate("harness", "could not build a Message");
+         (void) m()->AddInt32("cidx", idx);
+         crowdFlat.push_back(Flat(m)); crowdGot.push_back(0);
+         if (CG()->AddOutgoingMessage(m).IsError()) Violate("harness", "AddOutgoingMessage failed");
+         crowdCapture.clear();
+         for (int guard=0; (guard<1000)&&(CG()->HasBytesToOutput()); guard++) {const io_status_t r = CG()->DoOutput(MUSCLE_NO_LIMIT); if (r.IsError()) Violate("sender_error", std::string("crowd sender DoOutput returned ") + r.GetStatus()());}
+         for (size_t c=0; c<crowdCapture.size(); c++) {rx.push_back(Pkt()); rx.back().b.swap(crowdCapture[c]); rx.back().src = -(idx+2); crowdPkts++;}
+         crowdCapture.clear();
+      }
+      th.u((uint64_t) n);
+      OpIn(0);
+   }
    void OpRestart(int s)
    {
       s = ((s % senders) + senders) % senders;
@@ -742,6 +794,13 @@ struct Harness : public AbstractGatewayMessageReceiver
          const std::string f = Flat(m);
          k[K_DELIVERED]++;
          th.u((uint64_t)(int64_t) src); th.b(f.data(), f.size());
+         const int cidx = (src < 0) ? CrowdIdxOf(from) : -1;
+         if (cidx >= 0)
+         {
+            if (f != crowdFlat[(size_t) cidx]) Violate((uidOf.find(f) != uidOf.end()) ? "wrong_source" : "not_sent", "the receiver delivered, as coming from crowd source " + I(cidx) + ", something other than the one Message that source sent: " + Describe(f, m, src));
+            if (++crowdGot[(size_t) cidx] > 1) Violate("dup_without_dup_fault", "the one Message of crowd source " + I(cidx) + " (whose packets were delivered once and in order) was delivered " + I(crowdGot[(size_t) cidx]) + " times");
+            continue;
+         }
          std::map<std::string, int>::const_iterator it = uidOf.find(f);
          if (it == uidOf.end())
          {
@@ -785,7 +844,12 @@ struct Harness : public AbstractGatewayMessageReceiver
       if (j < got.size()) {why = "sender " + I(s) + ": delivered Message " + U(j) + " (#" + I(got[j]) + ") is extra or out of order (" + U(sent.size()) + " sent, " + U(got.size()) + " delivered)"; return false;}
       return true;
    }
-   bool AllSequencesMatch(std::string & why) const {for (int s=0; s<senders; s++) if (SequenceMatches(s, why) == false) return false; return true;}
+   bool AllSequencesMatch(std::string & why) const
+   {
+      for (int s=0; s<senders; s++) if (SequenceMatches(s, why) == false) return false;
+      for (size_t i=0; i<crowdGot.size(); i++) if (crowdGot[i] != 1) {why = "crowd source " + U(i) + "'s one Message was delivered " + I(crowdGot[i]) + " times"; return false;}
+      return true;
+   }
 
    void DeliverAllInOrder() {while(!inflight.empty()) OpDeliver(0, true);}
    // what an event loop would do: DoOutput() only while the gateway says it has bytes to output
@@ -893,6 +957,7 @@ inline void Exec(const Plan & plan, RunResult & res)
       else if ((t[0] == "dup")&&(t.size() >= 2))     h.OpDup((size_t) ToU(t[1]));
       else if (t[0] == "in")                         h.OpIn((t.size() >= 2) ? (uint32_t) ToU(t[1]) : 0);
       else if ((t[0] == "restart")&&(t.size() >= 2)) h.OpRestart((int) ToI(t[1]));
+      else if ((t[0] == "crowd")&&(t.size() >= 2))   h.OpCrowd((uint32_t) ToU(t[1]));
       else if ((t[0] == "chk")&&(t.size() >= 2))     h.st.inc((h.inflight.size() == (size_t) ToU(t[1])) ? "gen_model_inflight_exact" : "gen_model_inflight_off");
    }
 
@@ -947,6 +1012,7 @@ inline void Exec(const Plan & plan, RunResult & res)
    st.inc("f.dgram_reorder", h.reorders);
    st.inc("f.would_block", h.wouldBlocks);
    st.inc("f.sender_restart", h.restarts);
+   if (h.crowdPkts > 0) {st.inc("runs_with_crowd"); st.inc("p.crowd_packets", h.crowdPkts); if (h.crowdFlat.size() > 256) st.inc("p.crowd_beyond_receive_state_table");}
    st.inc(perfect ? "runs_perfect" : "runs_faulty");
    if ((!perfect)&&(!transportFaults)) st.inc("runs_wouldblock_only");
    if (h.restarts > 0) st.inc("runs_with_restart"); else if (!perfect) st.inc("runs_faulty_without_restart");
